@@ -20,6 +20,9 @@ import FpgoVerif.Model.C13Ask
         fired), `V` returned a value, `T` returned the timeout; actor: `i` idle, `p<k>` parked before replying to k,
         `b<k>` blocked in the select of the reply to k.
       Last: `end <status> res=<i:V<value>|T|-,…> srv=<requests served, in order> pan=<panics>`.
+    * `fanin mcap=… k=<k> c=<c> late=<ms> seed=…`   k AskChannel requests built with NewByOptions on ONE shared caller-made
+      reply channel of capacity c < k, the collector starts to read `late` ms after the requests were sent; every one of the
+      k replies must arrive (the actor waits in `Reply` while the buffer is full); observation `ok received=<k>`.
     * `askstress mcap=… n=… m=… rcap=… to=… seed=…`   free-running; observation `ok`. -/
 
 namespace FpgoVerif.C13
@@ -164,6 +167,7 @@ def runAsk (line : String) : String :=
 def handle (line : String) : String :=
   if line.startsWith "ask " then runAsk line
   else if line.startsWith "askstress " then "ok"
+  else if line.startsWith "fanin " then s!"ok received={kvNat (line.splitOn " ") "k"}"
   else "bad-case"
 
 /-! ### Spec-level oracle -/
@@ -227,7 +231,7 @@ def judgeAsk (line impl : String) : String :=
 
 def judge (line impl : String) : String :=
   if line.startsWith "ask " then judgeAsk line impl
-  else if line.startsWith "askstress " then
+  else if line.startsWith "askstress " || line.startsWith "fanin " then
     if impl.startsWith "ok" then "allowed the monitors saw no violation" else s!"violation monitor: {impl}"
   else "violation unknown case"
 
